@@ -1283,6 +1283,13 @@ func (p *PairV2) AddLastSwapStepWithOrders(amount0In, amount1Out *big.Int, buy b
 	}
 
 	p.lockOrders.Lock()
+	locked := true
+	defer func() {
+		if locked {
+			// a panic below (the handlers' recovery turns it into an error response) must not keep the pool locked
+			p.lockOrders.Unlock()
+		}
+	}()
 
 	var orders []*Limit
 	if buy {
@@ -1291,7 +1298,7 @@ func (p *PairV2) AddLastSwapStepWithOrders(amount0In, amount1Out *big.Int, buy b
 		if amount0InCalc != nil && amount0InCalc.Sign() == 1 {
 			amount0InCalc = big.NewInt(0).Add(amount0InCalc, calcCommission0999(amount0InCalc))
 		}
-		if amount0InCalc.Cmp(amount0In) != 0 {
+		if amount0InCalc == nil || amount0InCalc.Cmp(amount0In) != 0 {
 			log.Println("AddLastSwapStepWithOrders calculateSellForBuyWithOrders error", amount0InCalc, amount0In)
 		}
 		orders = ordrs
@@ -1300,7 +1307,7 @@ func (p *PairV2) AddLastSwapStepWithOrders(amount0In, amount1Out *big.Int, buy b
 			amount0In = big.NewInt(0).Sub(amount0In, calcCommission1000(amount0In))
 		}
 		amount1OutCalc, ordrs := p.calculateBuyForSellWithOrders(amount0In)
-		if amount1OutCalc.Cmp(amount1Out) != 0 {
+		if amount1OutCalc == nil || amount1OutCalc.Cmp(amount1Out) != 0 {
 			log.Println("AddLastSwapStepWithOrders calculateBuyForSellWithOrders error", amount1OutCalc, amount1Out)
 		}
 		orders = ordrs
@@ -1426,6 +1433,7 @@ func (p *PairV2) AddLastSwapStepWithOrders(amount0In, amount1Out *big.Int, buy b
 		})
 	}
 
+	locked = false
 	p.lockOrders.Unlock()
 
 	pair.updateOrders(oo)
